@@ -185,17 +185,26 @@ def run(tier, seed):
         "scalars / nested fixed arrays of scalars; nested structs, i128, slices, enums are outside the model",
         "Cranelift's System V register assignment for a flat signature is modelled as sequential 6 int / 8 SSE "
         "registers then 8-byte stack slots, StructArgument(sz) = sz bytes of stack (Model/Abi.v cl_assign): assumed, "
-        "exercised end to end",
+        "exercised end to end; given that, C19_passmode_agrees proves abi_ok for every signature of the fragment",
         "u32 arithmetic of layout.rs does not wrap (type sizes < 2^32)",
         "gcc is the reference for the C side (host gcc, -O0 and -O2)",
     ]
     return fl.finish()
 
 
+# Flip to True together with fix candidates C19-1/2 (/verif/.cache/prompts/C19-1-fix.diff on top of
+# C02-2-fix.diff: over-wide struct reads go through a padded temporary; Coq: C19_caller_read_fixed_within):
+# a crash in the page-end pass is then never attributed to the recorded over-read findings.
+READ_FIXED = os.environ.get("VERIF_C19_READ_FIXED", "0") == "1"   # default False; env only for trying the candidate
+
+
 def norm_class(cls):
     """Strip the concrete size from the e2e module's class names (classes name a mechanism)."""
     import re
-    return re.sub(r"-size\d+", "", cls)
+    cls = re.sub(r"-size\d+", "", cls)
+    if READ_FIXED and cls.endswith(":oob-read-at-page-end"):
+        cls = cls + ":after-fix"
+    return cls
 
 
 def e2e_stream(fl, E, capy, tier):
@@ -233,6 +242,23 @@ def e2e_stream(fl, E, capy, tier):
             v.coverage["distinct_nontrivial"] = v.coverage.get("distinct_nontrivial", 0) + nontriv // len(cflag_sets)
             v.coverage["e2e_%s_program_runs" % name] = len(jobs)
             bad = [(j, r) for j, r in zip(jobs, res) if r["status"] != "ok"]
+            # a timeout of the compiler or of the generated executable on a loaded machine is not a verdict:
+            # one patient, sequential re-run decides
+            patient = []
+            for j, r in bad:
+                if "timeout" in str(r.get("detail")):
+                    old_to = E.RUN_TIMEOUT
+                    E.RUN_TIMEOUT = 300
+                    try:
+                        r2 = one(j)
+                    finally:
+                        E.RUN_TIMEOUT = old_to
+                    v.coverage["e2e_timeouts_rerun"] = v.coverage.get("e2e_timeouts_rerun", 0) + 1
+                    if r2["status"] == "ok":
+                        continue
+                    r = r2
+                patient.append((j, r))
+            bad = patient
             v.coverage["e2e_%s_program_runs_not_ok" % name] = len(bad)
 
             full_shrink = set(id(jr[0]) for jr in bad[:2])   # greedy minimisation only for the first two
@@ -271,8 +297,8 @@ def e2e_stream(fl, E, capy, tier):
                     for sg in job[0]:
                         for p_, (where, _c) in zip(sg["params"], E.assign(sg)):
                             if E.is_struct(p_) and E.overread(p_, where):
-                                pass_cls = ("c19:to_c:struct-arg-reg-chunk-not-pow2:oob-read-at-page-end" if where == "reg"
-                                            else "c19:to_c:struct-arg-stack-not-multiple-of-8:oob-read-at-page-end")
+                                pass_cls = norm_class("c19:to_c:struct-arg-reg-chunk-not-pow2:oob-read-at-page-end" if where == "reg"
+                                                      else "c19:to_c:struct-arg-stack-not-multiple-of-8:oob-read-at-page-end")
                                 break
                         if pass_cls:
                             break
